@@ -182,6 +182,16 @@ out.append("        _ => unreachable!(),")
 out.append("    }")
 out.append("}")
 out.append("")
+out.append("/// route 4b: `t_format_string!` / `t_format_display!` on a reactive context (evaluated immediately for the current locale)")
+out.append("pub fn call_site_ctx_string(site: usize, i18n: leptos_i18n::I18nContext<Locale>, v: &Val) -> String {")
+out.append("    match site {")
+for i, (kind, fmt, exp) in enumerate(sites):
+    arg = {"num": "v.num()", "cur": "v.num()", "date": "&v.date()", "time": "&v.time()", "dt": "&v.datetime()", "list": "v.list()"}[kind]
+    out.append(f"        {i} => format!(\"{{}}\\u{{2}}{{}}\", t_format_string!(i18n, {arg}, formatter: {fmt}), t_format_display!(i18n, {arg}, formatter: {fmt})),")
+out.append("        _ => unreachable!(),")
+out.append("    }")
+out.append("}")
+out.append("")
 out.append("/// plural keys: td_string! with a count (get_plural_rules cache)")
 out.append("pub fn call_plural(ordinal: bool, locale: Locale, count: u64) -> String {")
 out.append("    if ordinal { td_string!(locale, pl_ord, count = count).to_string() } else { td_string!(locale, pl_card, count = count).to_string() }")
